@@ -132,6 +132,54 @@ theorem C05_complete_all_received (hs : Hashing) (c : Chain) (t : Nat) (bt : Bat
   · rw [hnil] at h; cases h
   · exact h
 
+/-- **The requested filter is recognised by its block hash, not by its position.**
+For ANY query (however its index and headers were obtained) and any stream:
+if the requested hash is not among the awaited blocks, `targetFilter` stays
+unset — so `GetCFilter` fails with `ErrFilterFetchFailed` rather than return the
+filter of whatever block sits at the requested block's position. -/
+theorem C05_target_by_hash (hs : Hashing) (cont : Bool) (rs : List Resp) (q : Query) (st : Store)
+    (hnone : q.found = none) (hna : ∀ i, (q.target, i) ∉ q.index) :
+    (feed hs cont (q, st) rs).1.1.found = none :=
+  feed_target_not_awaited hs cont rs (q, st) hnone hna
+
+/-- **A reorganisation between the by-hash and the by-height lookups of
+`prepareCFiltersQuery`.**  If the chain read afterwards has another block at the
+requested block's height (`t` above the fork point), the prepared query awaits
+the new chain's blocks, not the requested hash, and whatever the peers send —
+the verified filter of the replacement block included — the call does not
+return a filter: with nothing cached or persisted for the hash it fails. -/
+theorem C05_reorged_target_fails (hs : Hashing) (s : State) (rg : Reorg) (c : Call)
+    (htip : s.chain.tip < altBase) (hfork : rg.fork < c.target)
+    (hc : ∀ e ∈ s.store.cache.items, e.key ≠ c.target) (hd : lookup s.store.db c.target = none) :
+    (getCFilterReorg hs s rg c).result.isRet = false := by
+  have hm := GetBlock.spec_get_miss_of_nokey hc
+  have hsame := GetBlock.spec_get_miss hm
+  unfold getCFilterReorg
+  split
+  · rfl
+  · generalize s.store.cache.step (.get c.target) = p at hm hsame
+    obtain ⟨c', o⟩ := p
+    simp only at hm hsame
+    subst hsame
+    cases o with
+    | val v => exact absurd rfl (hm v)
+    | okPut _ | err | notFound | no | unit | hang =>
+      simp only [hd]
+      cases hp : prepareReorg s.chain rg c.target c.batch c.maxBatch with
+      | error e => rfl
+      | ok q =>
+        obtain ⟨ht, hn, hidx⟩ := prepareReorg_index s.chain rg c.target c.batch c.maxBatch q htip hp
+        have hf := feed_target_not_awaited hs c.cont c.resps (q, s.store) hn (by rw [ht]; exact hidx hfork)
+        simp only
+        cases c.verdict <;> simp only [hf] <;> rfl
+
+example : (getCFilterReorg exHash (init 100 3 [1, 51, 561, 5671] true) ⟨1, 3, [1, 51, 141, 1551]⟩
+      { target := 2, batch := .none, maxBatch := 0, resps := [⟨true, true, altBase + 2, true, 9, 4⟩],
+        cont := false, verdict := .nil }).result = .errFetchFailed ∧
+    (getCFilterReorg exHash (init 100 3 [1, 51, 561, 5671] true) ⟨1, 3, [1, 51, 141, 1551]⟩
+      { target := 2, batch := .none, maxBatch := 0, resps := [⟨true, true, altBase + 2, true, 9, 4⟩],
+        cont := false, verdict := .nil }).prog = [.finished] := by decide
+
 /-- the handler makes progress exactly when all tests pass -/
 theorem C05_progress_iff (hs : Hashing) (qs : Query × Store) (r : Resp) :
     (handle hs qs r).2 ≠ .none ↔ (verify hs qs.1 r).isSome = true := handle_progress_iff hs qs r
